@@ -49,7 +49,7 @@ pub fn check_value(v: &RVal, acc: &mut Acc) {
             match guard(|| jsonb::Value::from(&sj)) {
                 Err(p) => acc.vio(&format!("from-serde:{}", panic_class(&p)), ctx),
                 Ok(back) => {
-                    if back != val {
+                    if back != val || val != back {
                         acc.vio("from-serde:not-equal-to-original", || json!({"ctx": ctx(), "back": format!("{:?}", back)}));
                     }
                     if from_value(&back) != expect {
@@ -83,7 +83,7 @@ pub fn check_value(v: &RVal, acc: &mut Acc) {
                 acc.vio("value-into-serde:differs-from-document", || json!({"ctx": ctx(), "observed": format!("{:?}", from_serde(&sj))}));
             }
             match guard(|| jsonb::Value::from(sj)) {
-                Ok(back) if back == val && from_value(&back) == expect => {}
+                Ok(back) if back == val && val == back && from_value(&back) == expect => {}
                 other => acc.vio("value-into-serde:round-trip-not-equal", || json!({"ctx": ctx(), "back": format!("{:?}", other)})),
             }
         }
